@@ -27,6 +27,7 @@ import gc
 import hashlib
 import io
 import os
+import pathlib
 import pickle
 import shutil
 import tempfile
@@ -892,6 +893,18 @@ def project_path(path, cands):
     return {'ex': 1, 'fmt': fmt, 'own': -1, 'why': 'wrong-content: ' + ' | '.join(why)[:600]}
 
 
+def not_refused_class(path, old, old_ob, new, new_ob):
+    """what an unrequested write onto an existing file left behind"""
+    obs = project_path(path, {new: new_ob})
+    if obs['own'] == new:
+        return 'not-refused-replaced'
+    if obs['why'].startswith('foreign-keys'):
+        return 'not-refused-merged'
+    if old_ob is not None and old != new and project_path(path, {old: old_ob})['why'].startswith('foreign-keys'):
+        return 'not-refused-merged'
+    return 'not-refused-' + why_class(obs['why'])
+
+
 def why_class(why):
     return why.split(':')[0] if why else 'wrong-content'
 
@@ -900,7 +913,8 @@ def why_class(why):
 class World:
     """two paths in a scratch directory, kept handles, the catalogue objects of one history"""
 
-    def __init__(self, directory, kinds, features):
+    def __init__(self, directory, kinds, features, pathlib_ok=None):
+        self.pathlib_ok = pathlib_ok or {}
         os.makedirs(os.path.dirname(directory) or '.', exist_ok=True)
         self.dir = directory = tempfile.mkdtemp(prefix=os.path.basename(directory) + '_', dir=os.path.dirname(directory) or '.')
         self.paths = {p: os.path.join(directory, f'file{p}.dat') for p in (1, 2)}
@@ -935,12 +949,21 @@ class World:
     def _open(self, path):
         return open(path, 'r+b' if os.path.exists(path) else 'w+b')
 
+    def name(self, e, op):
+        """the file NAME handed to the library: a str, or for mode 'pathlib' a pathlib.Path - unless
+        Path targets are not usable at all for this operation / format (reported once by
+        pathlib_probe); then the str is used so that the rest of the history is still exercised"""
+        path = self.paths[e['p']]
+        if e['mode'] == 'pathlib' and self.pathlib_ok.get(f"{op}/{e['fmt']}", True):
+            return pathlib.Path(path)
+        return path
+
     def save(self, e):
         """-> (outcome, exception, the object that was saved)"""
         path = self.paths[e['p']]
         ob = self.loaded[1] if e['src'] == 1 else self.obj[e['o']]
-        if e['mode'] == 'path':
-            out, ex = try_save(ob, path, e['fmt'], e['ow'])
+        if e['mode'] in ('path', 'pathlib'):
+            out, ex = try_save(ob, self.name(e, 'save'), e['fmt'], e['ow'])
         elif e['mode'] == 'fresh':
             f = self._open(path)
             try:
@@ -962,8 +985,8 @@ class World:
 
     def load(self, e, kind):
         path = self.paths[e['p']]
-        if e['mode'] == 'path':
-            return do_load(kind, path, e['fmt'])
+        if e['mode'] in ('path', 'pathlib'):
+            return do_load(kind, self.name(e, 'load'), e['fmt'])
         with open(path, 'rb') as f:
             return do_load(kind, f, e['fmt'])
 
@@ -1004,7 +1027,7 @@ def replay(rec, idx, directory, safe):
     (key suffix, what, detail dict)"""
     kinds = rec['kinds']
     feats = pick_features(kinds, idx, safe)
-    w = World(os.path.join(directory, f'h{idx}'), kinds, feats)
+    w = World(os.path.join(directory, f'h{idx}'), kinds, feats, safe.get('__pathlib__'))
     case = {'kinds': kinds, 'features': feats, 'events': [h['ev'] for h in rec['hist']]}
     try:
         for k, h in enumerate(rec['hist']):
@@ -1035,13 +1058,28 @@ def _replay_step(w, e, h):
         if ch is not None:
             return (f'd/{fmt}/object-changed', 'saving changed the in-memory object',
                     {'object': ch[0], 'change': ch[1]})
+        if out == 'Raises' and h['out'] == 'Refused' and mode == 'pathlib':
+            # a pathlib.Path is refused by whatever exception the library raises ("refuses to replace an
+            # existing HDF5 path"); what matters is that the file still holds exactly the old object
+            old = h['post'][e['p'] - 1]
+            obs = project_path(w.paths[e['p']], {old['own']: w.pristine[old['own']]} if old['own'] > 0 else {})
+            if obs['own'] != old['own'] or obs['fmt'] != old['fmt']:
+                return (f'{pre}/refused-but-modified',
+                        f'the save raised {type(ex).__name__} but the existing file no longer holds exactly the old object',
+                        {'error': f'{type(ex).__name__}: {ex}', 'observed': obs})
+            if file_hash(w.paths[other]) != other_hash:
+                return (f'{pre}/other-path-modified', 'a save changed the file at the other path', {})
+            return None
         if out == 'Raises':
             return (f'{pre}/raises-{type(ex).__name__}',
                     f'save raises {type(ex).__name__} where the specification says {h["out"]}',
                     {'error': f'{type(ex).__name__}: {ex}'})
         if out != h['out']:
-            return (f'{pre}/' + ('not-refused' if h['out'] == 'Refused' else 'refused-unexpectedly'),
-                    f'save outcome {out}, specification says {h["out"]}', {})
+            if h['out'] == 'Refused':
+                old = h['post'][e['p'] - 1]['own']
+                return (f'{pre}/' + not_refused_class(w.paths[e['p']], old, w.pristine.get(old), e['o'], w.pristine[e['o']]),
+                        'an existing HDF5 path was written to although overwrite was not requested', {})
+            return (f'{pre}/refused-unexpectedly', f'save outcome {out}, specification says {h["out"]}', {})
         if file_hash(w.paths[other]) != other_hash:
             return (f'{pre}/other-path-modified', 'a save changed the file at the other path', {})
         if out == 'Refused':
@@ -1081,7 +1119,7 @@ def _replay_step(w, e, h):
 
 
 # ----------------------------------------------------------- I -> S: record random histories
-def record_history(seed, length, directory, safe, modes=('path', 'fresh', 'kept')):
+def record_history(seed, length, directory, safe, modes=('path', 'pathlib', 'fresh', 'kept')):
     """random admissible history on real files; everything logged is OBSERVED (outcome from the
     exception, file system from project_path, identity of a loaded object from the oracle).
     -> {'kinds', 'features', 'steps': [...]} ; a step with 'error' ends the history."""
@@ -1090,7 +1128,7 @@ def record_history(seed, length, directory, safe, modes=('path', 'fresh', 'kept'
     if rng.random() < 0.5:
         kinds[1] = kinds[0]
     feats = pick_features(kinds, int(rng.integers(0, 10 ** 6)), safe)
-    w = World(os.path.join(directory, f't{seed}'), kinds, feats)
+    w = World(os.path.join(directory, f't{seed}'), kinds, feats, safe.get('__pathlib__'))
     steps = []
     view = {1: {'ex': 0, 'fmt': '', 'own': 0}, 2: {'ex': 0, 'fmt': '', 'own': 0}}
     held = set()
@@ -1108,7 +1146,7 @@ def record_history(seed, length, directory, safe, modes=('path', 'fresh', 'kept'
                      'fmt': str(rng.choice(FMTS)), 'ow': int(rng.integers(0, 2)), 'mode': str(rng.choice(modes))}
                 if e['mode'] != 'kept' and p in held:
                     continue
-                if e['mode'] != 'path' and not e['ow'] and has:
+                if e['mode'] not in ('path', 'pathlib') and not e['ow'] and has:
                     continue
             elif u < 0.92:
                 if not has or view[p]['own'] < 0:
@@ -1128,12 +1166,18 @@ def record_history(seed, length, directory, safe, modes=('path', 'fresh', 'kept'
                 out, ex = w.save(e)
                 if e['mode'] == 'kept':
                     held.add(p)
+                if out == 'Raises' and e['mode'] == 'pathlib' and e['fmt'] == 'hdf5' and not e['ow'] and view[p]['ex']:
+                    out = 'Refused'         # refused by another exception; the logged file system decides
+                    st['why'] = f'refused by {type(ex).__name__}'
                 if out == 'Raises':
                     st['error'] = f'{type(ex).__name__}: {ex}'
                     st['errtype'] = type(ex).__name__
                     steps.append(st)
                     break
                 st['out'] = out
+                if out == 'Ok' and e['fmt'] == 'hdf5' and e['mode'] in ('path', 'pathlib') and not e['ow'] and view[p]['ex']:
+                    old = view[p]['own']
+                    st['nr'] = not_refused_class(w.paths[p], old, w.pristine.get(old), e['o'], w.pristine[e['o']])
             else:
                 res, lo, err = 0, None, None
                 for cid in (1, 2, 3):
@@ -1268,6 +1312,45 @@ def _matrix_case(kind, cid, feature, directory, second_generation):
     return out, n
 
 
+def pathlib_probe(directory):
+    """are pathlib.Path targets usable at all?  every kind x format: save to a fresh Path, load from a
+    Path (explicit file_type).  -> ({'save/hdf5': bool, ...}, [(key, demanded, what, case)], n)"""
+    os.makedirs(directory, exist_ok=True)
+    ok = {f'{op}/{fmt}': True for op in ('save', 'load') for fmt in FMTS}
+    out, n = [], 0
+    for kind in KINDS:
+        ob = build(kind, 1, 'base')
+        for fmt in FMTS:
+            path = os.path.join(directory, f'pl_{kind}_{fmt}.dat')
+            if os.path.exists(path):
+                os.remove(path)
+            n += 1
+            case = {'kind': kind, 'fmt': fmt}
+            try:
+                save_or_raise(ob, pathlib.Path(path), fmt, False)
+            except Exception as ex:
+                ok[f'save/{fmt}'] = False
+                out.append((f'a/{fmt}/pathlib-target/save-raises-{type(ex).__name__}', True,
+                            f'saving to a pathlib.Path raises {type(ex).__name__}: {ex}', case))
+                if os.path.exists(path):
+                    os.remove(path)
+                save_or_raise(ob, path, fmt, False)
+            try:
+                lo = do_load(kind, pathlib.Path(path), fmt)
+                diff = compare_objects(ob, lo)
+                if diff:
+                    out.append((f'a/{fmt}/pathlib-target/{diff[0][0]}', True, 'round trip through a pathlib.Path differs',
+                                {**case, 'diff': diff[:4]}))
+            except Exception as ex:
+                ok[f'load/{fmt}'] = False
+                out.append((f'a/{fmt}/pathlib-target/load-raises-{type(ex).__name__}', True,
+                            f'loading from a pathlib.Path raises {type(ex).__name__}: {ex}', case))
+            finally:
+                if os.path.exists(path):
+                    os.remove(path)
+    return ok, out, n
+
+
 def infer_type_cases(directory):
     """load_* with file_type=None infers the format from the file name"""
     out, n = [], 0
@@ -1288,6 +1371,23 @@ def infer_type_cases(directory):
             except Exception as ex:
                 out.append((f'a/{fmt}/infer-file-type/{type(ex).__name__}', True,
                             f'{type(ex).__name__}: {ex}', {'kind': kind, 'suffix': suffix}))
+            finally:
+                if os.path.exists(path):
+                    os.remove(path)
+            if kind != 'RDMs':
+                continue
+            n += 1                          # the same with the name given as a pathlib.Path
+            try:
+                save_or_raise(ob, path, fmt, False)
+                lo = do_load(kind, pathlib.Path(path), None)
+                diff = compare_objects(ob, lo)
+                if diff:
+                    out.append((f'a/{fmt}/infer-file-type-pathlib/{diff[0][0]}', True,
+                                'round trip with inferred file type differs', {'kind': kind, 'suffix': suffix}))
+            except Exception as ex:
+                out.append((f'a/{fmt}/infer-file-type-pathlib/{type(ex).__name__}', True,
+                            f'load_rdm(pathlib.Path(..{suffix})) without file_type: {type(ex).__name__}: {ex}',
+                            {'kind': kind, 'suffix': suffix}))
             finally:
                 if os.path.exists(path):
                     os.remove(path)
